@@ -237,11 +237,12 @@ class EventDispatcher(metaclass=abc.ABCMeta):
             async with self._task_group() as tg:
                 for producer in self._producers:
                     tg.create_task(producer.initialize())
-            # Run producers and dispatch loop.
-            async with self._task_group() as tg:
-                for producer in self._producers:
-                    tg.create_task(producer.main())
-                tg.create_task(self._dispatch_loop())
+            # Run producers and dispatch loop, unless stop was requested while initializing.
+            if not self.stopped:
+                async with self._task_group() as tg:
+                    for producer in self._producers:
+                        tg.create_task(producer.main())
+                    tg.create_task(self._dispatch_loop())
         except asyncio.CancelledError:
             if not self.stopped:
                 raise
